@@ -71,6 +71,10 @@ def run(tier):
     for i in range(120 if quick else 4000 * common.TS):
         steps, hm = (feat_repl.history if i % 2 else feat_repl.host_history)(r4.fork(str(i)))
         histories.append({"name": "history/%d" % i, "steps": steps, "mods": hm, "budget": 3000000})
+    from ..gen import feat_index
+    gen += hostile.extreme_arith_programs(rng.fork("extreme"), quick)
+    gen += hostile.statement_call_programs(rng.fork("stmtcall"), quick)
+    gen += [(n_, s_, []) for n_, s_ in feat_index.programs(rng.fork("index"))]
     ck.coverage["builtin_calls_enumerated"] = ncalls
     ck.coverage["method_names_swept"] = names
     ck.coverage["value_pool_size"] = len(hostile.POOL)
